@@ -53,4 +53,54 @@ K3Scalar(s, cs) ==
      LET p == RMul(RMul(cs[i].v, cs[i].v), s.A) IN
      \/ REq(p, s.xi[i])
      \/ RIsZero(s.lam[i]) /\ (IF cs[i].y = 1 THEN RLeq(p, s.xi[i]) ELSE RLeq(s.xi[i], p))
+(***************************************************************************)
+(* The machine in dimension d (growth of the specification beyond C11):    *)
+(* the same projection with A a d x d matrix and v a vector of rationals,  *)
+(* visited in the ORDER OF THE IMPLEMENTATION - one sweep runs over the    *)
+(* constraints as given (the code puts the similar pairs first, then the   *)
+(* dissimilar ones) - and the documented stopping rule, evaluated exactly: *)
+(*   normsum = |lam|_2 + |lam_old|_2;  stop when normsum = 0 or when        *)
+(*   SUM_i |lam_old_i - lam_i| / normsum < tol.                             *)
+(* TR_ITML replays recorded fits of the real ITML against it (the duals    *)
+(* and slack bounds are not logged: the machine carries them).             *)
+(***************************************************************************)
+RM == INSTANCE Mat WITH Zero <- RZero, Add <- RAdd, Mul <- RMul, Sub <- RSub, Leq <- RLeq
+
+ProjectM(s, i, c, g) ==
+  LET Av == RM!MatVec(s.A, c.v)
+      p  == RM!Dot(c.v, Av)                                     \* v^T A v
+      r  == IF c.y = 1 THEN RSub(RInv(p), RInv(s.xi[i])) ELSE RSub(RInv(s.xi[i]), RInv(p))
+      al == RMin(s.lam[i], RMul(GammaProj(g), r))
+      be == IF c.y = 1 THEN RDiv(al, RSub(ROne, RMul(al, p))) ELSE RDiv(RNeg(al), RAdd(ROne, RMul(al, p)))
+      xi1 == IF IsInf(g) THEN s.xi[i]
+             ELSE IF c.y = 1 THEN RInv(RAdd(RInv(s.xi[i]), RDiv(al, g)))
+             ELSE RInv(RSub(RInv(s.xi[i]), RDiv(al, g)))
+  IN [A |-> RM!MAdd(s.A, RM!MScale(be, RM!Outer(Av, Av))),
+      lam |-> [s.lam EXCEPT ![i] = RSub(s.lam[i], al)],
+      xi |-> [s.xi EXCEPT ![i] = xi1]]
+
+RECURSIVE SweepFrom(_, _, _, _)
+SweepFrom(s, cs, g, i) == IF i > Len(cs) THEN s ELSE SweepFrom(ProjectM(s, i, cs[i], g), cs, g, i + 1)
+OneSweep(s, cs, g) == SweepFrom(s, cs, g, 1)
+(* the states after 0, 1, ..., n sweeps *)
+RECURSIVE SweepSeq(_, _, _, _)
+SweepSeq(acc, cs, g, n) == IF n = 0 THEN acc ELSE SweepSeq(Append(acc, OneSweep(acc[Len(acc)], cs, g)), cs, g, n - 1)
+MachineInit(A0, cs, lo, hi) ==
+  [A |-> A0, lam |-> [i \in 1..Len(cs) |-> RZero] \o <<>>, xi |-> [i \in 1..Len(cs) |-> IF cs[i].y = 1 THEN lo ELSE hi] \o <<>>]
+
+RAbs(a) == IF IsNeg(a[1]) THEN RNeg(a) ELSE a
+RSq(a)  == RMul(a, a)
+(* the stopping rule after a sweep that took the duals from lo_ (old) to ln (new), tolerance t >= 0 (a rational):   *)
+(*   S < t (sqrt N1 + sqrt N2)  <=>  S^2 - t^2 (N1 + N2) < 2 t^2 sqrt(N1 N2)  - decided exactly by squaring once more *)
+StopsAfter(lo_, ln, t) ==
+  LET N1 == RSumSeq([i \in 1..Len(ln) |-> RSq(ln[i])] \o <<>>, 1)
+      N2 == RSumSeq([i \in 1..Len(lo_) |-> RSq(lo_[i])] \o <<>>, 1)
+      S  == RSumSeq([i \in 1..Len(ln) |-> RAbs(RSub(lo_[i], ln[i]))] \o <<>>, 1)
+      t2 == RSq(t)
+      lhs == RSub(RSq(S), RMul(t2, RAdd(N1, N2)))
+  IN  \/ RIsZero(N1) /\ RIsZero(N2)
+      \/ /\ ~(RIsZero(N1) /\ RIsZero(N2))
+         /\ RIsPos(t)
+         /\ \/ IsNeg(lhs[1])
+            \/ RLt(RSq(lhs), RMul(RInt(4), RMul(RSq(t2), RMul(N1, N2))))
 =============================================================================
